@@ -158,17 +158,17 @@ def obligations(tier):
     obs = []
     if tier == "quick":
         singles = [1, 2, 3, 4, 6, 7, 8, 11, 12, 13, 16, 48]
-        pairs = [(1, 1), (2, 3), (4, 6), (3, 4), (3, 7)]
+        pairs = [(1, 1), (2, 3), (4, 6), (3, 4), (3, 7), (48, 5)]
         b = 200
     else:
         singles = [1, 2, 3, 4, 5, 6, 7, 8, 9, 11, 12, 13, 16, 48, 64, 192]
-        pairs = [(1, 1), (2, 3), (4, 6), (3, 4), (8, 12), (5, 7), (3, 7), (5, 9), (16, 48), (2, 2), (4, 4)]
+        pairs = [(1, 1), (2, 3), (4, 6), (3, 4), (8, 12), (5, 7), (3, 7), (5, 9), (16, 48), (48, 5), (48, 7), (16, 5), (2, 2), (4, 4)]
         b = 3000
     for d in singles:
         obs.append(dict(name=f"roundtrip 1 note /{d}", func="ob_roundtrip", args=((d,), 2, 1, 8, True), budget_s=b, bounds=f"numerator 0..{8*d-1} over {d}, 2 columns, keysound symbolic"))
     obs.append(dict(name="roundtrip 1 note /4 3 players", func="ob_roundtrip", args=((4,), 2, 3, 4, True), budget_s=b, bounds="player 0..2 symbolic (skipped players)"))
     for ds in pairs:
-        obs.append(dict(name=f"roundtrip 2 notes /{ds}", func="ob_roundtrip", args=(ds, 2, 1, 4 if tier == "quick" else 8, False), budget_s=b,
+        obs.append(dict(name=f"roundtrip 2 notes /{ds}", func="ob_roundtrip", args=(ds, 2, 1, (2 if max(ds) >= 48 else 4) if tier == "quick" else 8, False), budget_s=b,
                         bounds=f"two notes, denominators {ds}, beats in [0,{4 if tier == 'quick' else 8}), sorted unique positions"))
     obs.append(dict(name="roundtrip 2 notes /(1,2) 2 players", func="ob_roundtrip", args=((1, 2), 2, 2, 4, True), budget_s=b, bounds="two notes, players 0..1 symbolic"))
     if tier != "quick":
@@ -231,7 +231,7 @@ def replay(data):
 def main(tier):
     from vlib import core
     chk = core.Check(PROP, tier, "harness." + PROP, FUNCTIONS,
-                     bounds={"quick": "1 note over 12 denominators incl. 7, 11, 13 (beats in [0,8)), 2 notes over 5 denominator pairs (beats in [0,4)), players 0..2, far measure <= 50, empty stream",
+                     bounds={"quick": "1 note over 12 denominators incl. 7, 11, 13 (beats in [0,8)), 2 notes over 6 denominator pairs incl. (48,5) (beats in [0,4)), players 0..2, far measure <= 50, empty stream",
                              "thorough": "1 note over 13 denominators, 2 notes over 9 pairs (beats in [0,8)), 3 notes over 3 triples, far measure, empty stream"}[tier],
                      assumptions=ASSUMPTIONS, outside=OUTSIDE)
     chk.add_results(core.run_obligations("harness." + PROP, obligations(tier)))
